@@ -69,3 +69,4 @@ def distribution(cases):
         k = sum(1 for x in c["D"] if x < 0); d["indebted_vertices"][k] = d["indebted_vertices"].get(k, 0) + 1
         d["tie_for_min"] += c["D"].count(min(c["D"])) > 1
     return d
+common.add_growth(globals())
